@@ -1174,9 +1174,10 @@ dt_strfd(char *restrict buf, size_t bsz, const char *fmt, struct dt_d_s that)
 			/* must be literal then */
 			*bp++ = *fp_sav;
 		} else if (LIKELY(!spec.rom)) {
-			bp += __strfd_card(bp, eo - bp, spec, &d, that);
+			const size_t nd = __strfd_card(bp, eo - bp, spec, &d, that);
+			bp += nd;
 			if (spec.ord) {
-				bp += __ordtostr(bp, eo - bp);
+				bp += __ordtostr(bp, eo - bp, nd);
 			} else if (spec.bizda && bp < eo) {
 				/* don't print the b after an ordinal */
 				if (spec.ab == BIZDA_AFTER) {
